@@ -29,6 +29,43 @@ theorem descList_perm : (cs : List Tree) → (cs.map Tree.pid ++ descList cs).Pe
       exact h3.trans (List.Perm.append h1 h2)
 end
 
+mutual
+theorem findSub_sub : (t : Tree) → (p : Nat) → (st : Tree) → findSub p t = some st →
+    st.pid = p ∧ ∀ x ∈ allPids st, x ∈ allPids t
+  | .node q cs, p, st, h => by
+      unfold findSub at h
+      split at h
+      · rename_i hq
+        simp only [Option.some.injEq] at h
+        subst h
+        exact ⟨hq, fun x hx => hx⟩
+      · obtain ⟨h1, h2⟩ := findSubList_sub cs p st h
+        refine ⟨h1, fun x hx => ?_⟩
+        simp only [allPids, List.mem_cons]
+        exact Or.inr (h2 x hx)
+theorem findSubList_sub : (cs : List Tree) → (p : Nat) → (st : Tree) → findSubList p cs = some st →
+    st.pid = p ∧ ∀ x ∈ allPids st, x ∈ allPidsList cs
+  | [], p, st, h => by simp [findSubList] at h
+  | c :: cs, p, st, h => by
+      unfold findSubList at h
+      split at h
+      · rename_i t ht
+        simp only [Option.some.injEq] at h
+        subst h
+        obtain ⟨h1, h2⟩ := findSub_sub c p t ht
+        refine ⟨h1, fun x hx => ?_⟩
+        simp only [allPidsList, List.mem_append]
+        exact Or.inl (h2 x hx)
+      · obtain ⟨h1, h2⟩ := findSubList_sub cs p st h
+        refine ⟨h1, fun x hx => ?_⟩
+        simp only [allPidsList, List.mem_append]
+        exact Or.inr (h2 x hx)
+end
+
+theorem findSub_root (t : Tree) : findSub t.pid t = some t := by
+  cases t with
+  | node q cs => simp [findSub, Tree.pid]
+
 theorem joinSlices_sum (fuel remaining : Nat) (h : remaining / 600 < fuel) :
     (joinSlices fuel remaining).foldl (· + ·) 0 = remaining ∧ ∀ x ∈ joinSlices fuel remaining, 0 < x ∧ x ≤ 600 := by
   induction fuel generalizing remaining with
